@@ -419,27 +419,31 @@ def cffIndexAt (a : Array Nat) (pos : Nat) : Option (List (List Nat) × Nat) :=
         (List.range (e - s)).map fun k => a.getD (base + s + k) 0
       some (objs, base + offs.getD count 1)
 
-/-- a real DICT operand (nibbles) as a 16.16 value; exponents are not supported -/
-def dictReal : List Nat → Bool → Nat → Option Nat → Option (Int × List Nat)
-  | [], _, _, _ => none
-  | b :: rest, neg, mant, frac =>
-    let step (st : Option (Bool × Nat × Option Nat × Bool)) (nib : Nat) :=
+/-- a real DICT operand (nibbles) as a 16.16 value; a real with an exponent part (only FontMatrix entries in the
+files read here) is skipped and read as 0 -/
+def dictReal : List Nat → Bool → Nat → Option Nat → Bool → Option (Int × List Nat)
+  | [], _, _, _, _ => none
+  | b :: rest, neg, mant, frac, bad =>
+    let step (st : Option (Bool × Nat × Option Nat × Bool × Bool)) (nib : Nat) :=
       match st with
       | none => none
-      | some (ng, m, f, fin) =>
-        if fin then some (ng, m, f, fin)
-        else if nib ≤ 9 then some (ng, m * 10 + nib, f.map (· + 1), false)
-        else if nib == 10 then some (ng, m, some 0, false)
-        else if nib == 14 then some (true, m, f, false)
-        else if nib == 15 then some (ng, m, f, true)
-        else none
-    match step (step (some (neg, mant, frac, false)) (b / 16)) (b % 16) with
+      | some (ng, m, f, bd, fin) =>
+        if fin then some (ng, m, f, bd, fin)
+        else if bd then some (ng, m, f, true, nib == 15)
+        else if nib ≤ 9 then some (ng, m * 10 + nib, f.map (· + 1), false, false)
+        else if nib == 10 then some (ng, m, some 0, false, false)
+        else if nib == 14 then some (true, m, f, false, false)
+        else if nib == 15 then some (ng, m, f, false, true)
+        else some (ng, m, f, true, false)
+    match step (step (some (neg, mant, frac, bad, false)) (b / 16)) (b % 16) with
     | none => none
-    | some (ng, m, f, true) =>
-      let den := 10 ^ (f.getD 0)
-      let v : Int := ((m * 65536 + den / 2) / den : Nat)
-      some (if ng then -v else v, rest)
-    | some (ng, m, f, false) => dictReal rest ng m f
+    | some (ng, m, f, bd, true) =>
+      if bd then some (0, rest)
+      else
+        let den := 10 ^ (f.getD 0)
+        let v : Int := ((m * 65536 + den / 2) / den : Nat)
+        some (if ng then -v else v, rest)
+    | some (ng, m, f, bd, false) => dictReal rest ng m f bd
 
 /-- DICT → (operator, operands in 16.16 units) -/
 def dictDecode : Nat → List Nat → List Int → List (Nat × List Int) → Option (List (Nat × List Int))
@@ -464,7 +468,7 @@ def dictDecode : Nat → List Nat → List Int → List (Nat × List Int) → Op
       | b1 :: b2 :: b3 :: b4 :: r => dictDecode f r (st ++ [toI32 (((b1 * 256 + b2) * 256 + b3) * 256 + b4) * 65536]) acc
       | _ => none
     else if b0 = 30 then
-      match dictReal rest false 0 none with
+      match dictReal rest false 0 none false with
       | some (v, r) => dictDecode f r (st ++ [v]) acc
       | none => none
     else if b0 = 12 then
@@ -494,25 +498,59 @@ def dictGet (d : List (Nat × List Int)) (op : Nat) : Option (List Int) := (d.fi
           match tops.head? >>= fun t => dictDecode (t.length + 1) t [] [] with
           | none => "bad-topdict"
           | some top =>
-            match dictGet top 17, dictGet top 18 with
-            | some [cso], some [psize, poff] =>
-              let po := (poff / 65536).toNat
-              let ps := (psize / 65536).toNat
-              let pbytes := (List.range ps).map fun k => a.getD (po + k) 0
-              match dictDecode (ps + 1) pbytes [] [], cffIndexAt a (cso / 65536).toNat with
-              | some priv, some (css, _) =>
-                let dw := ((dictGet priv 20).bind List.head?).getD 0
-                let nw := ((dictGet priv 21).bind List.head?).getD 0
-                let subrs := match (dictGet priv 19).bind List.head? with
-                  | some so => ((cffIndexAt a (po + (so / 65536).toNat)).map (·.1)).getD []
-                  | none => []
-                ",".intercalate (css.map fun cs =>
-                  match interp strict ⟨subrs, gsubrs, dw, nw⟩ cs with
-                  | .ok g => toString g.width
-                  | .err e => s!"err:{e}"
-                  | .panic p => s!"panic:{p}")
-              | _, _ => "bad-private-or-charstrings"
-            | _, _ => "no-charstrings-or-private"
+            -- Private DICT (size, offset) → (defaultWidthX, nominalWidthX, local subrs)
+            let readPriv (pd : List Int) : Option (Int × Int × List (List Nat)) :=
+              match pd with
+              | [psize, poff] =>
+                let po := (poff / 65536).toNat
+                let ps := (psize / 65536).toNat
+                let pbytes := (List.range ps).map fun k => a.getD (po + k) 0
+                (dictDecode (ps + 1) pbytes [] []).map fun priv =>
+                  let dw := ((dictGet priv 20).bind List.head?).getD 0
+                  let nw := ((dictGet priv 21).bind List.head?).getD 0
+                  let subrs := match (dictGet priv 19).bind List.head? with
+                    | some so => ((cffIndexAt a (po + (so / 65536).toNat)).map (·.1)).getD []
+                    | none => []
+                  (dw, nw, subrs)
+              | _ => none
+            match dictGet top 17 with
+            | some [cso] =>
+              match cffIndexAt a (cso / 65536).toNat with
+              | none => "bad-charstrings"
+              | some (css, _) =>
+                let n := css.length
+                -- the Private DICT of every glyph: one for a simple font, FDArray + FDSelect for a CID-keyed font
+                let privs : Option (Array (Int × Int × List (List Nat)) × (Nat → Nat)) :=
+                  match dictGet top 1236, dictGet top 1237 with
+                  | some [fdao], some [fdso] =>
+                    match cffIndexAt a (fdao / 65536).toNat with
+                    | none => none
+                    | some (fdDicts, _) =>
+                      let ps := fdDicts.mapM fun fd =>
+                        (dictDecode (fd.length + 1) fd [] []).bind fun dd => (dictGet dd 18).bind readPriv
+                      let fp := (fdso / 65536).toNat
+                      let sel : Nat → Nat :=
+                        if a.getD fp 255 == 0 then fun g => a.getD (fp + 1 + g) 0
+                        else
+                          -- format 3: nRanges, (first, fd)*, sentinel
+                          let nr := beN a (fp + 1) 2
+                          fun g =>
+                            ((List.range nr).foldl (fun acc i =>
+                              if beN a (fp + 3 + 3 * i) 2 ≤ g then a.getD (fp + 3 + 3 * i + 2) 0 else acc) 0)
+                      ps.map fun l => (l.toArray, sel)
+                  | _, _ => ((dictGet top 18).bind readPriv).map fun p => (#[p], fun _ => 0)
+                match privs with
+                | none => "bad-private"
+                | some (parr, sel) =>
+                  ",".intercalate ((List.range n).map fun g =>
+                    match parr[sel g]? with
+                    | none => "bad-fd"
+                    | some (dw, nw, subrs) =>
+                      match interp strict ⟨subrs, gsubrs, dw, nw⟩ (css.getD g []) with
+                      | .ok gl => toString gl.width
+                      | .err e => s!"err:{e}"
+                      | .panic p => s!"panic:{p}")
+            | _ => "no-charstrings"
 
 def handleC04 (op : String) (fs : List (String × String)) : String :=
   if op == "t2.encnum" then
